@@ -80,7 +80,10 @@ def write_ws(root, pkgs):
 
 def wire(root, args, cwd=None):
     t = build_tools()
-    p = sh([t["wire"]] + args, cwd=cwd or root, env=GOENV, timeout=300)
+    try:
+        p = sh([t["wire"]] + args, cwd=cwd or root, env=GOENV, timeout=90, mem_gb=8)
+    except subprocess.TimeoutExpired:
+        return 124, "", "timeout: wire %s did not finish within 90s" % " ".join(args[:2])
     return p.returncode, p.stdout, p.stderr
 
 
@@ -382,6 +385,11 @@ def eng_cli(pid, tier, wd, known, replay=None):
                     if got != want:
                         viol.append(({"property": pid, "kind": "failing-input", "broken": "C19 oracle: wire show grouping", "input": {"package": n, "files": allp[n]},
                                       "impl": {"show": sso[-1200:]}, "oracle": ["wire show groups %s, the outside inputs needed are %s" % (got, want)], "seed": seed()}, True))
+                    continue
+                if s_rc in (2, 124) or c_rc in (2, 124):
+                    viol.append(({"property": pid, "kind": "failing-input", "broken": "C19 oracle: check/show must terminate", "input": {"package": n, "files": allp[n]},
+                                  "impl": {"check_exit": c_rc, "show_exit": s_rc, "stderr": (se + sse)[-400:]},
+                                  "oracle": ["wire check (exit %d) or wire show (exit %d) crashed or did not finish" % (c_rc, s_rc)], "seed": seed()}, True))
                     continue
                 if n == "cyc":
                     # an unused top-level set with a cycle: check must report it although gen does not look at it
